@@ -185,6 +185,9 @@ func (e *Exec) zeroScalar(w int) *Term {
 
 // zero returns the zero value of type t.
 func (e *Exec) zero(t types.Type) Value {
+	if isReflectValueType(t) {
+		return &RVal{}
+	}
 	switch u := under(t).(type) {
 	case *types.Basic:
 		if u.Kind() == types.UnsafePointer {
@@ -374,6 +377,12 @@ func ifaceSame(a, b Iface) bool {
 	if a.t == nil || b.t == nil {
 		return a.t == nil && b.t == nil
 	}
+	if _, ok := a.t.(*shimType); ok {
+		return a.t == b.t && a.v == b.v
+	}
+	if _, ok := b.t.(*shimType); ok {
+		return false
+	}
 	if !types.Identical(a.t, b.t) {
 		return false
 	}
@@ -443,6 +452,17 @@ func (e *Exec) eqVal(t types.Type, a, b Value) *Term {
 		if av.t == nil || bv.t == nil {
 			return tc.Bool(av.t == nil && bv.t == nil)
 		}
+		ast, aShim := av.t.(*shimType)
+		bst, bShim := bv.t.(*shimType)
+		if aShim || bShim {
+			if !aShim || !bShim || ast != bst {
+				return tc.False
+			}
+			if art, ok := av.v.(*RType); ok {
+				return tc.Bool(types.Identical(art.t, bv.v.(*RType).t))
+			}
+			return tc.Bool(av.v == bv.v)
+		}
 		if !types.Identical(av.t, bv.t) {
 			return tc.False
 		}
@@ -462,6 +482,26 @@ func (e *Exec) eqVal(t types.Type, a, b Value) *Term {
 	case *Closure, *ssa.Function, *ssa.Builtin:
 		_, ok := b.(nilFuncT)
 		return tc.Bool(!ok && a == b)
+	case *RVal:
+		bv, ok := b.(*RVal)
+		if !ok {
+			return tc.False
+		}
+		if av.t == nil || bv.t == nil {
+			return tc.Bool(av.t == nil && bv.t == nil)
+		}
+		if !types.Identical(av.t, bv.t) || av.addr != bv.addr {
+			return tc.False
+		}
+		if av.addr {
+			return tc.Bool(av.ptr.cell == bv.ptr.cell)
+		}
+		if ap, ok := av.val.(Ptr); ok {
+			if bp, ok := bv.val.(Ptr); ok {
+				return tc.Bool(ap.cell == bp.cell)
+			}
+		}
+		return tc.False
 	case Opaque:
 		bv, ok := b.(Opaque)
 		return tc.Bool(ok && av.kind == bv.kind && av.v == bv.v)
